@@ -535,6 +535,15 @@ fn twin(s: &str, r: &mut Rng) -> String {
             return t;
         }
     }
+    // a sixth kind, one time in five: "the same recipe" as a different text - other line ends,
+    // trailing blanks, a BOM, a final newline or none, a comment, a decomposed accent, tabs for
+    // spaces, `{}` after a one-word name. Spans, texts and line counts legitimately differ
+    // between such variants, so whatever is memoised under a normalised key shows.
+    if r.chance(1, 5) {
+        if let Some(t) = lexical_variant(s, r) {
+            return t;
+        }
+    }
     let chars: Vec<char> = s.chars().collect();
     if chars.len() < 2 {
         return format!("{s}x");
@@ -636,4 +645,133 @@ fn respell_metadata(s: &str, r: &mut Rng) -> Option<String> {
     out.push_str(nl);
     out.push_str(&body.join(nl));
     Some(out)
+}
+
+fn lexical_variant(s: &str, r: &mut Rng) -> Option<String> {
+    const PAIRS: &[(&str, &str)] = &[
+        ("\u{e9}", "e\u{301}"), ("\u{e8}", "e\u{300}"), ("\u{e0}", "a\u{300}"), ("\u{f1}", "n\u{303}"), ("\u{fc}", "u\u{308}"), ("\u{e2}", "a\u{302}"), ("\u{ee}", "i\u{302}"),
+    ];
+    let first = r.below(11);
+    for k in 0..11 {
+        let t = match (first + k) % 11 {
+            0 => {
+                if s.contains("\r\n") {
+                    s.replace("\r\n", "\n")
+                } else {
+                    s.replace('\n', "\r\n")
+                }
+            }
+            1 => {
+                // trailing blanks at every line end, or at one
+                let pad = *r.pick(&[" ", "\t", "  "]);
+                let all = r.chance(1, 2);
+                let n = s.matches('\n').count();
+                let only = if n > 0 { r.below(n) } else { 0 };
+                let mut out = String::new();
+                for (i, l) in s.split('\n').enumerate() {
+                    if i > 0 {
+                        out.push('\n');
+                    }
+                    let (body, cr) = match l.strip_suffix('\r') {
+                        Some(b) => (b, "\r"),
+                        None => (l, ""),
+                    };
+                    out.push_str(body);
+                    if i < n && (all || i == only) && !body.is_empty() {
+                        out.push_str(pad);
+                    }
+                    out.push_str(cr);
+                }
+                out
+            }
+            2 => match s.strip_suffix('\n') {
+                Some(b) => b.strip_suffix('\r').unwrap_or(b).to_string(),
+                None => format!("{s}\n"),
+            },
+            3 => match s.strip_prefix('\u{feff}') {
+                Some(b) => b.to_string(),
+                None => format!("\u{feff}{s}"),
+            },
+            4 => {
+                let mut t = s.to_string();
+                for (a, b) in PAIRS {
+                    if t.contains(a) {
+                        t = t.replacen(a, b, 1);
+                        break;
+                    } else if t.contains(b) {
+                        t = t.replacen(b, a, 1);
+                        break;
+                    }
+                }
+                t
+            }
+            5 => {
+                // a comment at the end of a step line
+                let lines: Vec<&str> = s.split('\n').collect();
+                let cands: Vec<usize> = (0..lines.len()).filter(|&i| !lines[i].trim().is_empty() && !lines[i].starts_with(">>") && !lines[i].starts_with('=') && !lines[i].starts_with("---") && !lines[i].contains("--") && !lines[i].contains(": ")).collect();
+                if cands.is_empty() {
+                    s.to_string()
+                } else {
+                    let i = *r.pick(&cands);
+                    let mut out: Vec<String> = lines.iter().map(|l| l.to_string()).collect();
+                    let (body, cr) = match out[i].strip_suffix('\r') {
+                        Some(b) => (b.to_string(), "\r"),
+                        None => (out[i].clone(), ""),
+                    };
+                    out[i] = format!("{body} -- note to self{cr}");
+                    out.join("\n")
+                }
+            }
+            6 => {
+                // a block comment between two words
+                match s.char_indices().filter(|&(i, c)| c == ' ' && i > 0 && s[..i].chars().next_back().map_or(false, |p| p.is_alphabetic())).map(|(i, _)| i).nth(r.below(4)) {
+                    Some(i) => format!("{} [- x -]{}", &s[..i], &s[i..]),
+                    None => s.to_string(),
+                }
+            }
+            7 => {
+                // tab or double space for one single space
+                let cands: Vec<usize> = s.match_indices(' ').map(|(i, _)| i).collect();
+                if cands.is_empty() {
+                    s.to_string()
+                } else {
+                    let i = *r.pick(&cands);
+                    format!("{}{}{}", &s[..i], r.pick_str(&["\t", "  "]), &s[i + 1..])
+                }
+            }
+            // a blank line (or a line of blanks) before everything else
+            10 => match s.strip_prefix('\n') {
+                Some(b) => b.to_string(),
+                None => format!("{}\n{s}", r.pick_str(&["", " ", "\t"])),
+            },
+            8 => {
+                if s.contains("\n\n\n") {
+                    s.replacen("\n\n\n", "\n\n", 1)
+                } else {
+                    s.replacen("\n\n", "\n\n\n", 1)
+                }
+            }
+            _ => {
+                // `@word ` -> `@word{} ` (or back)
+                if let Some(i) = s.find("{} ") {
+                    format!("{}{}", &s[..i], &s[i + 2..])
+                } else {
+                    let mut out = None;
+                    for (i, _) in s.match_indices('@') {
+                        let rest = &s[i + 1..];
+                        let end = rest.find(|c: char| !c.is_alphanumeric()).unwrap_or(rest.len());
+                        if end > 0 && rest[end..].starts_with(' ') && !rest[end..].trim_start().starts_with('{') {
+                            out = Some(format!("{}{{}}{}", &s[..i + 1 + end], &s[i + 1 + end..]));
+                            break;
+                        }
+                    }
+                    out.unwrap_or_else(|| s.to_string())
+                }
+            }
+        };
+        if t != s {
+            return Some(t);
+        }
+    }
+    None
 }
